@@ -87,6 +87,13 @@ def cell_script(spec):
         body = f"zr := false\nwhile {l} {op} {r} {{\n    zr = true\n    break\n}}\nprint(zr)\n"
     elif form == "else-if-condition":
         body = f"if false {{\n    print(0)\n}} else if {l} {op} {r} {{\n    print(true)\n}} else {{\n    print(false)\n}}\n"
+    elif form == "aliased-nesting":
+        if r == "alias":
+            body = f"m := {l}\nprint(m {op} [m])\n"          # [[7]] vs [[[7]]]: 7 against [7]
+        elif r == "alias-left":
+            body = f"m := [[7]]\nprint([m] {op} m)\n"        # [7] against 7
+        else:
+            body = f"m := {l}\nprint(m {op} {{\"a\": m}})\n"   # 7 against {"a": 7}
     elif form == "in-list":
         body = f"print([{l}] {op} [{r}])\n"
     elif form == "in-list-twice":
@@ -324,6 +331,9 @@ def all_specs():
                     for l in REPS[lk]:
                         for r in REPS[rk]:
                             specs.append({"op": op, "form": form, "lk": lk, "rk": rk, "l": l, "r": r})
+    for op in ("==", "!="):                 # a container compared with a container that holds it: the cell reached is (list, int) / …
+        for lk, l, rk, r in (("int", "[[7]]", "list", "alias"), ("list", "[[[7]]]", "int", "alias-left"), ("int", "{\"a\": {\"a\": 7}}", "object", "alias-obj")):
+            specs.append({"op": op, "form": "aliased-nesting", "lk": lk, "rk": rk, "l": l, "r": r})
     for op in ASSIGN_OPS:
         for form in TARGETS:
             for lk in KINDS:
